@@ -6,6 +6,9 @@
 From VM Require Import Prelude.MachInt Prelude.Outcome Prelude.Tok Impl.Volatile Spec.C01.
 
 Definition ety_of (t : N) : ety := {| e_size := ty_size t; e_align := ty_align t |}.
+(* the atomic type a type id stands for in get_atomic_ref: its size, its own alignment, and the
+   alignment of its value type (Impl/Volatile.v atomic_ty) *)
+Definition aty_of (t : N) : atomic_ty := {| at_size := ty_size t; at_align := aty_align t; at_valign := ty_align t |}.
 
 (* request code -> model operation (19/20 are GuestMemory requests, handled in run_step) *)
 Definition dop_of (o : sop) : option dop :=
@@ -14,7 +17,7 @@ Definition dop_of (o : sop) : option dop :=
   | QGetSlice => Some (DGetSlice a b) | QAsVolatileSlice => Some DAsVolatileSlice
   | QGetRef => Some (DGetRef T a) | QGetArrayRef => Some (DGetArrayRef T a b)
   | QAlignedAsRef => Some (DAlignedAsRef T a) | QAlignedAsMut => Some (DAlignedAsMut T a)
-  | QGetAtomicRef => Some (DGetAtomicRef T a) | QOffset => Some (DOffset a)
+  | QGetAtomicRef => Some (DGetAtomicRef (atomic_ety (aty_of (s_ty o))) a) | QOffset => Some (DOffset a)
   | QSubslice => Some (DSubslice a b) | QSplitLo => Some (DSplitAtLo a) | QSplitHi => Some (DSplitAtHi a)
   | QIntoArrayU8 => Some DIntoArrayU8 | QRefToSlice => Some DRefToSlice | QRefAt => Some (DRefAt a)
   | QArrToSlice => Some DArrToSlice | QFromSlice => Some (DFromSlice T a b)
